@@ -228,14 +228,19 @@ func (st *State) sumLoop(h, from *ssa.BasicBlock, li *loopInfo, cl *countedLoop,
 	}
 	var ghostKeys []string
 	for k, v := range st.mem {
-		if isGhostKey(k) && v.K == KInt {
+		if (isGhostKey(k) || ip.intCells[k] != nil) && v.K == KInt {
 			ghostKeys = append(ghostKeys, k)
 		}
 	}
 	sort.Strings(ghostKeys)
 	for _, k := range ghostKeys {
 		base := k + "@sum" + h.String()
-		ip.SetBounds(base, 0, lin.PosInf)
+		if t := ip.intCells[k]; t != nil {
+			lo, hi, _ := intBounds(t, ip.sizes())
+			ip.SetBounds(base, lo, hi)
+		} else {
+			ip.SetBounds(base, 0, lin.PosInf)
+		}
 		col.base["mem:"+k] = base
 		body.mem[k] = IntVal(lin.Sym(base))
 	}
